@@ -9,7 +9,7 @@ GenNext == Next /\ hist' = Append(hist, obs')
 GenSpec == GenInit /\ [][GenNext]_<<vars, hist>>
 Skel == <<ik, reg, pend, bnd, bp, [i \in 1..nin |-> Len(wire[i])], eof>>
 Emit == PrintT(<<"BEHAV", ToJson(hist')>>)
-OpsQ == {"refuse", "accept"}
+OpsQ == {"refuse", "accept", "release"}
 OpsC == {"config"}
 OpsT == {"refuse", "accept", "config"}
 =============================================================================
